@@ -68,3 +68,32 @@ func isSliced(a *ssa.Alloc) bool {
 	}
 	return false
 }
+
+// smallLoopFree: a function with a body of at most 12 basic blocks, no back edge (blocks are in
+// reverse post-order only for reducible graphs: any edge to an earlier-or-equal block index counts)
+// and no direct call of itself. Such a callee can be executed in place instead of being summarised
+// by a contract.
+func smallLoopFree(fn *ssa.Function) bool {
+	if len(fn.Blocks) == 0 || len(fn.Blocks) > 12 || fn.Recover != nil {
+		return false
+	}
+	for _, b := range fn.Blocks {
+		for _, s := range b.Succs {
+			if s.Index <= b.Index {
+				return false
+			}
+		}
+		for _, in := range b.Instrs {
+			if c, ok := in.(ssa.CallInstruction); ok {
+				if callee := c.Common().StaticCallee(); callee == fn {
+					return false
+				}
+			}
+			switch in.(type) {
+			case *ssa.Go, *ssa.Defer, *ssa.Select, *ssa.Send:
+				return false
+			}
+		}
+	}
+	return true
+}
